@@ -1,9 +1,39 @@
 (* Prop_C24.v — the property theorems of C24 and nothing else. *)
 From Coq Require Import List NArith ZArith Bool Permutation.
 Import ListNotations.
-From Verif Require Import Base.Val C18.Fs C24.Model_C24 C24.Spec_C24 C24.Proofs_C24.
+From Verif Require Import Base.Val C22.Model_C22 C18.Fs C24.Model_C24 C24.Spec_C24 C24.Proofs_C24.
 
-(* every crash prefix of ContentsFile.flush(): CONTENTS is the old file or the complete new one *)
+(* one entry: what _write prints, stripped and parsed by _iter_contents, is the entry — for EVERY
+   entry of the domain: any path / target text (embedded spaces, "->" fragments, unicode), any md5,
+   any integral mtime *)
+Theorem roundtrip : forall e, WFpath e -> parse_line (strip (write_line e)) = Ok e.
+Proof. exact line_roundtrip_proof. Qed.
+Print Assumptions roundtrip.
+
+(* a whole set: the file written for it reads back as exactly its entries (in location order) *)
+Theorem contents_roundtrip : forall d, uniq_locs d -> Forall WFpath d ->
+  read_contents (write_contents d) = Ok (sort_entries d) /\ Permutation (sort_entries d) d.
+Proof. exact contents_roundtrip_full_proof. Qed.
+Print Assumptions contents_roundtrip.
+
+(* the premises of contents_roundtrip that do not depend on the text of the paths hold for every
+   set built by add(): unique locations, normalised locations *)
+Theorem set_invariant : forall raw,
+  uniq_locs (the_set raw) /\ Forall (fun e => normpath (eloc e) = eloc e) (the_set raw).
+Proof. exact the_set_invariant_proof. Qed.
+Print Assumptions set_invariant.
+
+(* the recorded defect: without the exclusion of symlink LOCATIONS holding a stand-alone "->" the
+   statement is false of the code *)
+Theorem roundtrip_refuted_sym :
+  wf_base sym_witness = true /\ known_class sym_witness = true /\
+  parse_line (strip (write_line sym_witness)) = Ok (ESym [47;97]%N [98;32;45;62;32;99]%N 7) /\
+  ~ line_roundtrip_full.
+Proof. exact line_roundtrip_refuted_sym_proof. Qed.
+Print Assumptions roundtrip_refuted_sym.
+
+(* every crash prefix of ContentsFile.flush(): CONTENTS is the old file or the complete new one,
+   nothing else but the temporary changes *)
 Theorem flush_atomic : flush_atomic_stmt.
 Proof. exact flush_atomic_proof. Qed.
 Print Assumptions flush_atomic.
